@@ -7,6 +7,7 @@ import (
 	"math"
 	"strconv"
 	"strings"
+	"time"
 
 	"github.com/redis/rueidis/rueidisprob"
 	"github.com/twmb/murmur3"
@@ -82,6 +83,7 @@ type bloomEp struct {
 	added     map[string]bool
 	lastCount uint64
 	haveCount bool
+	overlap   bool // an overlapping / concurrent phase has run in this episode
 }
 
 func boolsText(bs []bool) string {
@@ -159,6 +161,7 @@ func (e *bloomEp) op(c *Ctx, line string) {
 		}
 		e.added = map[string]bool{}
 		e.haveCount = false
+		e.overlap = false
 		c.Emit(line, ans, false)
 	case "s.add", "s.exists", "s.reset", "s.delete", "s.get":
 		var r reply
@@ -237,6 +240,9 @@ func (e *bloomEp) op(c *Ctx, line string) {
 		lg := logText(e.srv.takeLog(), e.name)
 		if w[0] == "!exists" {
 			c.Hit("oracle-exists:" + ans)
+			if ans != "1" && e.overlap && e.added[it.key] {
+				c.Fail("bloom:false-negative:overlapping-calls", line, fmt.Sprintf("item %q was added successfully (Add returned nil) during overlapping calls on the same filter value but Exists answers %s", it.key, ans))
+			}
 			c.Emit(line, ans, true)
 		} else {
 			c.Emit(line, ans+lg, true)
@@ -264,8 +270,135 @@ func (e *bloomEp) op(c *Ctx, line string) {
 		e.added = map[string]bool{}
 		e.haveCount = false
 		c.Emit(line, ans+logText(e.srv.takeLog(), e.name), false)
+	case "overlap":
+		// overlap <opA…> / <opB…>: opA is parked in the client before its arguments are read, opB runs
+		// to completion, then opA is released. Answer: "<ansA+callA> | <ansB+callB>".
+		a, b := splitSlash(w[1:])
+		expA, runA, keysA := e.sub(a)
+		expB, runB, keysB := e.sub(b)
+		before := map[string]bool{}
+		for k := range e.added {
+			before[k] = true
+		}
+		ansA, ansB, log := runOverlap(e.srv, expA, expB, runA, runB)
+		e.overlap = true
+		checkArgv(c, "bloom", line, log)
+		e.afterSub(c, line, a, keysA, ansA, before)
+		e.afterSub(c, line, b, keysB, ansB, before)
+		c.Hit("overlap:" + a[0] + "/" + b[0])
+		c.Emit(line, ansA+logText(logOf(log, 1), e.name)+" | "+ansB+logText(logOf(log, 2), e.name), true)
 	default:
 		c.Emit(line, "bad-op", false)
+	}
+}
+
+// sub prepares one `add …` / `exists …` sub-operation for overlapping execution: the arguments
+// it must hand to the client, a runner, and its keys.
+func (e *bloomEp) sub(w []string) (expect []string, run func(ctx context.Context) string, keys []string) {
+	for _, x := range w[1:] {
+		keys = append(keys, parseItemWord(x).key)
+	}
+	if len(keys) > 0 {
+		expect = append([]string{fmt.Sprint(e.k)}, idxStrings(keys, e.m, e.k)...)
+	}
+	single := len(keys) == 1 && len(keys[0])%2 == 0
+	switch w[0] {
+	case "add":
+		run = func(ctx context.Context) string {
+			return guard(func() string {
+				if single {
+					return errClass(e.bf.Add(ctx, keys[0]))
+				}
+				return errClass(e.bf.AddMulti(ctx, keys))
+			})
+		}
+	default: // exists
+		run = func(ctx context.Context) string {
+			return guard(func() string {
+				if single {
+					b, err := e.bf.Exists(ctx, keys[0])
+					if err != nil {
+						return errClass(err)
+					}
+					return boolsText([]bool{b})
+				}
+				r, err := e.bf.ExistsMulti(ctx, keys)
+				if err != nil {
+					return errClass(err)
+				}
+				if r == nil {
+					return "nil"
+				}
+				return boolsText(r)
+			})
+		}
+	}
+	return expect, run, keys
+}
+
+// afterSub does the bookkeeping of a finished sub-operation (main goroutine only): successful adds
+// become "added"; an exists that reports an item absent which was added before the phase is a failure.
+func (e *bloomEp) afterSub(c *Ctx, line string, w, keys []string, ans string, before map[string]bool) {
+	switch w[0] {
+	case "add":
+		if ans == "ok" {
+			for _, k := range keys {
+				e.added[k] = true
+			}
+		}
+	default:
+		for i, k := range keys {
+			if before[k] && len(ans) == len(keys) && ans[i] != '1' {
+				c.Fail("bloom:false-negative:overlapping-calls", line, fmt.Sprintf("overlapping Exists reports item #%d (%q, added earlier) as absent", i, k))
+			}
+		}
+	}
+}
+
+// concPhase: free-running goroutines on the one filter value; the calls are emitted afterwards as
+// ordinary lines in the order the fake executed them, then every successfully added item is checked.
+func (e *bloomEp) concPhase(c *Ctx, pool []item) {
+	G := 4 + c.Rng.IntN(5)
+	plans := make([][]*concOp, G)
+	id := 100
+	for g := range plans {
+		for j := 0; j < 6; j++ {
+			n := 1 + c.Rng.IntN(3)
+			ws := []string{"add"}
+			if c.Rng.IntN(3) == 0 {
+				ws[0] = "exists"
+			}
+			for x := 0; x < n; x++ {
+				ws = append(ws, pool[c.Rng.IntN(len(pool))].word())
+			}
+			exp, run, _ := e.sub(ws)
+			id++
+			plans[g] = append(plans[g], &concOp{words: ws, run: run,
+				tag: &callTag{id: id, expect: exp, delay: time.Duration(c.Rng.IntN(60)) * time.Microsecond}})
+		}
+	}
+	before := map[string]bool{}
+	for k := range e.added {
+		before[k] = true
+	}
+	ordered, log := runConc(e.srv, plans)
+	e.overlap = true
+	c.Hit("conc-phases")
+	for _, o := range ordered {
+		line := strings.Join(o.words, " ")
+		lg := logOf(log, o.tag.id)
+		checkArgv(c, "bloom", line, lg)
+		var keys []string
+		for _, x := range o.words[1:] {
+			keys = append(keys, parseItemWord(x).key)
+		}
+		e.afterSub(c, line, o.words, keys, o.ans, before)
+		c.Emit(line, o.ans+logText(lg, e.name), true)
+	}
+	for _, it := range pool {
+		if e.added[it.key] {
+			e.op(c, "!exists "+it.word())
+		}
 	}
 }
 
@@ -368,6 +501,50 @@ func runBloom(c *Ctx) {
 				ep.op(c, "s.delete")
 			}
 		}
+	}
+	// (5) overlapping calls on one filter value: gated (deterministic) and free-running
+	ocfgs := []struct {
+		n uint
+		r float64
+	}{{200, 0.01}, {50, 0.2}, {1000, 0.001}, {5, 0.1}}
+	for epi := 0; epi < max(6, c.N/100); epi++ {
+		cf := ocfgs[epi%len(ocfgs)]
+		bf, err := rueidisprob.NewBloomFilter(&fakeClient{srv: newFakeServer(func() int64 { return 1 })}, "probe", cf.n, cf.r)
+		if err != nil {
+			continue
+		}
+		m, k, _ := rueidisprob.VerifParams(bf)
+		ep.op(c, fmt.Sprintf("reset %d %d ro=%d n=%d rate=%s", m, k, epi%2, cf.n, rateBits(cf.r)))
+		pool := make([]item, 24)
+		for i := range pool {
+			pool[i] = mkItem(fmt.Sprintf("o%d-%d-%s", epi, i, strings.Repeat("x", i%3)))
+		}
+		next := 0
+		take := func(n int) string {
+			ws := make([]string, n)
+			for i := range ws {
+				ws[i] = pool[next%len(pool)].word()
+				next++
+			}
+			return strings.Join(ws, " ")
+		}
+		ep.op(c, "add "+take(1)) // loads the script
+		for j := 0; j < 5; j++ {
+			switch j % 3 {
+			case 0:
+				ep.op(c, "overlap add "+take(1+c.Rng.IntN(2))+" / add "+take(1+c.Rng.IntN(3)))
+			case 1:
+				ep.op(c, "overlap add "+take(1)+" / exists "+pool[c.Rng.IntN(len(pool))].word())
+			default:
+				ep.op(c, "overlap exists "+pool[0].word()+" / add "+take(2))
+			}
+		}
+		for _, it := range pool {
+			if ep.added[it.key] {
+				ep.op(c, "!exists "+it.word())
+			}
+		}
+		ep.concPhase(c, pool)
 	}
 	// (4) end-to-end episodes on small filters (collisions) and on typical ones
 	cfgs := []struct {
